@@ -22,19 +22,22 @@ def validate(mode: str, recs: list[dict], wd: Path, shards: int = 12, module: st
     """returns [(record index (0-based), verdict list)] for records TLC rejected"""
     if not recs:
         raise MachineryError(f"{mode}: empty corpus")
-    shards = max(1, min(shards, len(recs) // 200 or 1))
+    workers = max(1, min(shards, len(recs) // 200 or 1))
+    texts = [json.dumps(r) for r in recs]
+    # no input file above ~20 MB (the JSON reader of the trace module holds the whole file): more parts than workers if needed
+    shards = max(workers, sum(len(t) for t in texts) // 20_000_000 + 1)
     # round-robin so that every shard has similar work
     parts = [list(range(s, len(recs), shards)) for s in range(shards)]
 
     def one(s: int):
         inp, outp = wd / f"{mode}-in-{s}.json", wd / f"{mode}-out-{s}.json"
-        inp.write_text(json.dumps([recs[i] for i in parts[s]]))
+        inp.write_text("[" + ",".join(texts[i] for i in parts[s]) + "]")
         _, v = run_trace_tlc(module, cfg, inp, outp, name=f"{module}-{mode}-{s}",
                              extra_env={"DB_FILE": str(wd / "db.json"), "MODE": mode}, timeout=3000, heap="1g")
         if v["n"] != len(parts[s]):
             raise MachineryError(f"{mode}: shard {s} judged {v['n']} of {len(parts[s])} records")
         return [(parts[s][b["k"] - 1], b["v"]) for b in v["bad"]]
 
-    with ThreadPoolExecutor(max_workers=shards) as ex:
+    with ThreadPoolExecutor(max_workers=workers) as ex:
         res = list(ex.map(one, range(shards)))
     return sorted(x for r in res for x in r)
